@@ -211,6 +211,10 @@ class Gen:
         if op == "mat":
             self.nmat += 1
             return ["mat", prog, f"M{self.nmat}"], cols, eng
+        if op == "alt":
+            if not eng.startswith("it"):
+                return None
+            return ["alt", prog], cols, eng
         if op in ("cap", "rev"):
             # user-defined RowFilter / Reordering (extension points); only an engine subclass that
             # implements apply_custom_unary_operation can run them: the iteration engines here
@@ -404,7 +408,7 @@ def op_signature(prog) -> str:
         return "L"
     if op in ("chain", "join"):
         return f"({op_signature(prog[1])}{'U' if op == 'chain' else 'J'}{op_signature(prog[2])})"
-    short = {"calc": "c", "proj": "p", "sel": "s", "dedup": "d", "sort": "o", "slice": "l", "mat": "m", "xfer": "x", "mark": "k", "cap": "f", "rev": "r"}
+    short = {"calc": "c", "proj": "p", "sel": "s", "dedup": "d", "sort": "o", "slice": "l", "mat": "m", "xfer": "x", "mark": "k", "cap": "f", "rev": "r", "alt": "h"}
     return op_signature(prog[1]) + short[op]
 
 
@@ -461,7 +465,7 @@ def chain_with_name_twin(g: Gen, state, rng):
         return None
     for name, t in twins.items():
         g.leaves[name + "t"] = t
-    ops = ("leaf", "calc", "proj", "sel", "dedup", "sort", "slice", "chain", "join", "mat", "xfer", "mark", "cap", "rev")
+    ops = ("leaf", "calc", "proj", "sel", "dedup", "sort", "slice", "chain", "join", "mat", "xfer", "mark", "cap", "rev", "alt")
 
     def retarget(p):
         if p[0] == "leaf":
